@@ -6,8 +6,10 @@
 //!      rec  = chrom&pos&ids&ref&alts&qual&filters&info&keys&rows   (the format of C09's `line` kind)
 //!      ftab = bits:hex(Display text):bits(parse of that text),...   the f32 text oracle of the VCF model
 //!      rlen = variant_span of the record (an input of the BCF model)
+//!      prev = the record a REUSED RecordBuf holds when the BCF record is read into it (last obs field,
+//!             NV.Bcf.Bridge.bcf_read_into)
 //!   obs = <bcf record hex | Err:kind | Panic> | <bcf re-read> | <vcf line hex | WErr> | <vcf re-read>
-//!         | content(bcf re-read) | content(vcf re-read) | special/plain
+//!         | content(bcf re-read) | content(vcf re-read) | special/plain | <bcf re-read into the reused buffer>
 //! Oracle: both writers accepted and the record is outside string-special-chars => both re-reads
 //! succeed and have the same content.
 use super::*;
@@ -235,7 +237,7 @@ fn ftab(r: &Rec) -> String {
 }
 
 /// the case arguments of (h, r); None when the record is outside what the models cover
-pub fn vb_args(h: &Hdr, r: &Rec) -> Option<Vec<String>> {
+pub fn vb_args(h: &Hdr, r: &Rec, prev: &Rec) -> Option<Vec<String>> {
     let nonascii = |v: &Option<V>| match v {
         Some(V::C(c)) => !c.is_ascii(),
         Some(V::AC(l)) => l.iter().flatten().any(|c| !c.is_ascii()),
@@ -247,6 +249,9 @@ pub fn vb_args(h: &Hdr, r: &Rec) -> Option<Vec<String>> {
     if r.info.iter().any(|(_, v)| nonascii(v))
         || r.samples.iter().flatten().any(|v| nonascii(v) || empty_gt(v))
         || r.pos == 0
+        || prev.info.iter().any(|(_, v)| nonascii(v))
+        || prev.samples.iter().flatten().any(nonascii)
+        || prev.pos == 0
     {
         return None;
     }
@@ -266,6 +271,7 @@ pub fn vb_args(h: &Hdr, r: &Rec) -> Option<Vec<String>> {
         rec_str(r),
         ftab(r),
         rlen.to_string(),
+        rec_str(prev),
     ])
 }
 
@@ -320,25 +326,24 @@ pub fn content(v44: bool, r: &Rec) -> Rec {
     c
 }
 
-/// the class string-special-chars (NV.Bcf.Bridge.bcf_special), written independently
+/// the class string-special-chars (NV.Bcf.Bridge.bcf_special), written independently: exactly the
+/// values BCF cannot represent
 pub fn special(r: &Rec) -> bool {
-    let elt = |s: &String| s.is_empty() || s == "." || s.contains(',') || s.contains('\0');
-    let chr = |c: &char| matches!(*c, '.' | ',' | '\0');
-    let vec_special = |v: &V| match v {
-        V::AC(l) => l.iter().flatten().any(chr),
-        V::AS(l) => l.iter().flatten().any(elt),
-        _ => false,
-    };
+    // per-sample vector elements: `.`, or holding `,` / NUL; INFO vector elements: `.` or holding `,`
+    let elt_f = |s: &String| s == "." || s.contains(',') || s.contains('\0');
+    let elt_i = |s: &String| s == "." || s.contains(',');
     let info = |v: &Option<V>| match v {
         Some(V::S(s)) => s.is_empty(),
-        Some(x) => vec_special(x),
-        None => false,
+        Some(V::AC(l)) => l.iter().flatten().any(|c| matches!(*c, '.' | ',')),
+        Some(V::AS(l)) => (l.len() == 1 && l[0].as_deref() == Some("")) || l.iter().flatten().any(elt_i),
+        _ => false,
     };
     let fmt = |v: &Option<V>| match v {
         Some(V::C(c)) => *c == '.' || *c == '\0',
         Some(V::S(s)) => s == "." || s.contains('\0'),
-        Some(x) => vec_special(x),
-        None => false,
+        Some(V::AC(l)) => l.iter().flatten().any(|c| matches!(*c, '.' | ',' | '\0')),
+        Some(V::AS(l)) => l.iter().flatten().any(elt_f),
+        _ => false,
     };
     r.info.iter().any(|(_, v)| info(v)) || r.samples.iter().flatten().any(fmt)
 }
@@ -384,6 +389,21 @@ fn vcf_read_eager(header: &vcf::Header, line: &str) -> Result<RecordBuf, String>
     }
 }
 
+fn read_into(stream: &[u8], mut rb: RecordBuf) -> Result<RecordBuf, String> {
+    match guarded(AssertUnwindSafe(move || -> std::io::Result<RecordBuf> {
+        let mut rd = bcf::io::Reader::from(stream);
+        let h = rd.read_header()?;
+        if rd.read_record_buf(&h, &mut rb)? == 0 {
+            return Err(std::io::Error::new(std::io::ErrorKind::UnexpectedEof, "no record"));
+        }
+        Ok(rb)
+    })) {
+        Outcome::Done(Ok(x)) => Ok(x),
+        Outcome::Done(Err(e)) => Err(format!("Err {e}")),
+        Outcome::Panicked(m) => Err(format!("Panic {m}")),
+    }
+}
+
 pub fn run_vb(c: &Case) -> Obs {
     let ff: Vec<u32> = c.args[0].split('.').map(|x| x.parse().unwrap()).collect();
     let ns: usize = c.args[5].parse().unwrap();
@@ -396,6 +416,7 @@ pub fn run_vb(c: &Case) -> Obs {
         samples: (0..ns).map(|i| format!("s{i}")).collect(),
     };
     let r = rec_parse(&c.args[6]);
+    let prev = rec_parse(&c.args[9]);
     let v44 = h.ff >= (4, 4);
     let header = match parse_header(&header_text(&h)) {
         Ok(x) => x,
@@ -404,7 +425,10 @@ pub fn run_vb(c: &Case) -> Obs {
     let rb = to_buf(&r);
     let sp = special(&r);
     let out = outside(&h, &r);
-    let class = if sp { Some("string-special-chars") } else { None };
+    // FORMAT keys in a record without sample rows, header without samples: the writer emits
+    // n_fmt = number of keys and no FORMAT block
+    let keys_no_rows = !r.keys.is_empty() && r.samples.is_empty() && h.samples.is_empty();
+    let class = if sp { Some("string-special-chars") } else if keys_no_rows { Some("format-keys-without-sample-rows") } else { None };
     let tag = |generic: &str| class.map(|c| c.to_string()).unwrap_or_else(|| generic.to_string());
 
     let mut verdict: Result<(), (String, String)> = Ok(());
@@ -414,6 +438,7 @@ pub fn run_vb(c: &Case) -> Obs {
         }
     };
     // BCF
+    let mut reused: Option<Rec> = None;
     let (wobs, bback) = match write_bcf(&header, &rb) {
         WriteRes::Err(k) => (format!("Err:{k}"), None),
         WriteRes::Panic(m) => {
@@ -428,6 +453,14 @@ pub fn run_vb(c: &Case) -> Obs {
                     None
                 }
             };
+            // the same bytes read into a RecordBuf that holds another record
+            reused = match read_into(&stream, to_buf(&prev)) {
+                Ok(b) => Some(of_buf(&b)),
+                Err(_) => None,
+            };
+            if reused.as_ref().map(rec_str) != back.as_ref().map(rec_str) {
+                fail("reused-recordbuf-differs".to_string(), format!("fresh {:?} reused {:?}", back.as_ref().map(rec_str), reused.as_ref().map(rec_str)));
+            }
             (hex(&stream[hlen..]), back)
         }
     };
@@ -463,7 +496,7 @@ pub fn run_vb(c: &Case) -> Obs {
             }
         }
     }
-    let obs = [wobs, show(&bback), tobs, show(&vback), cb, cv, (if sp { "special" } else { "plain" }).to_string()].join("|");
+    let obs = [wobs, show(&bback), tobs, show(&vback), cb, cv, (if sp { "special" } else { "plain" }).to_string(), show(&reused)].join("|");
     finish(Obs::ok(obs, nontrivial), verdict)
 }
 
@@ -529,8 +562,17 @@ pub fn gen_vb(rng: &mut Rng, tier: &str, w: &mut CaseWriter) {
                 r.keys.clear();
             }
         }
-        let _ = &mut h;
-        if let Some(args) = vb_args(&h, &r) {
+        // FORMAT keys but no sample at all, under a header without samples
+        if rng.chance(1, 25) && !h.formats.is_empty() {
+            h.samples.clear();
+            r.samples.clear();
+            if r.keys.is_empty() {
+                r.keys.push(h.formats[0].id.clone());
+            }
+        }
+        // what the reused RecordBuf holds when the record is read into it
+        let prev = gen_record(rng, &h, "clean");
+        if let Some(args) = vb_args(&h, &r, &prev) {
             w.push("vb", args);
         }
     }
